@@ -1,10 +1,10 @@
-from vlib import Job
+from vlib import Job, REPO
 
 META = dict(
     bounds='(a) AlignedFileAdaptor over an in-memory underlay: alignment 2 and 4, align_memory off and on, initial file size 1..16 with symbolic content, '
            'one pread / pwrite with symbolic offset < size and symbolic length 0..16 (user buffer of exactly that length, every address residue modulo the '
            'alignment when align_memory is on); thorough: two-request sequences (write-read, write-write, read-write; size 1..8, lengths 0..8) and the vectored '
-           'preadv2_mutable / pwritev2_mutable with 2 segments of symbolic lengths (alignment 4, align_memory on, size 1..4 / lengths 0..4 and alignment 2, size 1..6 / lengths 0..6).  '
+           'preadv2_mutable / pwritev2_mutable with 2 segments of symbolic lengths (alignment 4, align_memory on, size 1..4 / lengths 0..4 and alignment 2, align_memory off, size 1..6 / lengths 0..6).  '
            '(b) FixedSizeLinearFile<range_split> (unit 2,3,4), FixedSizeLinearFile<range_split_power2> (unit 2,4), VariableSizeLinearFile (3 sub-files of symbolic '
            'sizes 1..3; thorough 1..4), StripeFile (stripe 2 and 4, 2 stripes per sub-file) over 3 sub-files (thorough: also 2): one pread / pwrite with symbolic '
            'offset < composite size and symbolic length 0..size+2; thorough: write-read and write-write sequences',
@@ -41,10 +41,14 @@ def ajob(name, al, am, fsz, rlen, ops, timeout, **kw):
     D = ['ALIGN=%d' % al, 'AMEM=%d' % am, 'FSZ=%d' % fsz, 'RLEN=%d' % rlen, 'NOPS=%d' % len(ops)] + ['OP%d=%d' % (i + 1, o) for i, o in enumerate(ops)]
     extra = dict(NOPA) if 1 in ops else {}
     extra.update(kw)
-    return Job(name, A, 'harness_aligned', defines=D, unwind=cap + 2, shims=SH, ir2c=MAP, timeout=timeout,
+    return Job(name, A, 'harness_aligned', defines=D, unwind=cap + 2, shims=SH, ir2c=MAP, timeout=timeout, tv=(am == 0), tv_vectors=1500, small=[0, 1, 2, 3, 4, 5, 7, 8, 9, 12, 15, 16],
                desc='AlignedFileAdaptor %s vs plain file, alignment %d, align_memory %d' % (' then '.join(OPN[o] for o in ops), al, am),
                bounds='file size 1..%d, offset < size, length 0..%d' % (fsz, rlen), **extra)
 
+
+# Translation validation (tv) compares a gcc build of the generated C with a g++ build of the harness on random inputs.  With align_memory the
+# adaptor's behaviour depends on buffer *addresses*, and the generated C does not carry the alignas() of the harness's static objects, so tv is
+# used for the align_memory=0 jobs only (same code, the flag is a constant).
 
 # vectored jobs: methods that are not on the path of the vectored adaptor calls become external stand-ins that report being reached
 # (rt/c16_fwd.c).  They are all *candidates* for the solver's resolution of the calls made through the IOVector's allocator callbacks
@@ -59,7 +63,7 @@ def vjob(al, am, fsz, rlen, op, timeout, mem_gb=10):
            'verif_memmove_n.0', 'verif_memmove_n.1', 'f__ZN7MemFile2rdEPvml.0', 'f__ZN7MemFile2wrEPKvml.0']
     return Job('alv_%s_a%d_m%d' % (OPN[op], al, am), A, 'harness_aligned',
                defines=['VECTORED', 'ALIGN=%d' % al, 'AMEM=%d' % am, 'FSZ=%d' % fsz, 'RLEN=%d' % rlen, 'NOPS=1', 'OP1=%d' % op, 'NIOV=2'],
-               unwind=5, unwindset=['%s:%d' % (l, cap + 2) for l in big], shims=SH + ['c16_fwd.c'], ir2c=MAP + VSTUB, timeout=timeout, mem_gb=mem_gb,
+               unwind=5, unwindset=['%s:%d' % (l, cap + 2) for l in big], shims=SH + ['c16_fwd.c'], ir2c=MAP + VSTUB, timeout=timeout, mem_gb=mem_gb, tv=(am == 0), tv_vectors=1500, small=[0, 1, 2, 3, 4, 5, 6],
                desc='AlignedFileAdaptor %s_mutable (2 segments) vs plain file, alignment %d, align_memory %d' % (OPN[op][:-1], al, am),
                bounds='file size 1..%d, offset < size, total length 0..%d split into 2 segments' % (fsz, rlen), **NOPA)
 
@@ -69,6 +73,7 @@ def vjob(al, am, fsz, rlen, op, timeout, mem_gb=10):
 XUS = ['f__ZN6photon2fs5XFile5preadEPvml:0', 'f__ZN6photon2fs5XFile6pwriteEPKvml:0']
 XMAP = ['--map', '^@_Znwm$=verif_c16_new', '--map', '^@_ZdlPv$=verif_c16_delete',
         '--stub', r'^@_ZN6photon2fs5IFile\d+p(read|write)v(2|_mutable|2_mutable)E', '--stub', r'^@_ZN7IStream\d+(read|write)v_mutableE']
+XTVL = ['-include', 'nolog.h', REPO + '/fs/virtual-file.cpp', REPO + '/common/iovector.cpp']     # native build: the real base-class methods
 KN = ['fixed', 'fixedp2', 'var', 'stripe']
 KD = ['FixedSizeLinearFile<range_split>', 'FixedSizeLinearFile<range_split_power2>', 'VariableSizeLinearFile', 'StripeFile']
 
@@ -83,7 +88,7 @@ def xjob(kind, unit, nsub, ops, timeout):
         us += ['%s:%d' % (l, 8 * (nsub + 2) + 2) for l in ('verif_memcpy_n.0', 'verif_memmove_n.0', 'verif_memmove_n.1')]
     D = ['KIND=%d' % kind, 'UNIT=%d' % unit, 'NSUB=%d' % nsub, 'NOPS=%d' % len(ops)] + ['OP%d=%d' % (i + 1, o) for i, o in enumerate(ops)]
     return Job('x_%s_%s_u%d_n%d' % (KN[kind], '_'.join(OPN[o] for o in ops), unit, nsub), X, 'harness_xfile', defines=D, unwind=parts + 2, unwindset=us,
-               shims=SH + ['c16_vfile.c'], ir2c=XMAP, timeout=timeout,
+               shims=SH + ['c16_vfile.c'], ir2c=XMAP, timeout=timeout, tv=True, tv_link=XTVL,
                desc='%s %s vs flat file, %s %d, %d sub-files' % (KD[kind], ' then '.join(OPN[o] for o in ops), 'sub-file sizes 1..' if kind == 2 else 'stripe' if kind == 3 else 'unit', unit, nsub),
                bounds='composite size %s%d, offset < size, length 0..%d' % ('<= ' if kind == 2 else '', tot, tot + 2))
 
@@ -112,12 +117,13 @@ def jobs(tier):
             else: J.append(xjob(kind, unit, 3, (op,), T))
     for kind, unit in XK:
         for ops in ((1, 0), (1, 1)):
-            J.append(xjob(kind, unit, 3, ops, T))
+            if (kind, unit, ops) != (3, 4, (1, 1)):      # stripe 4 x 3 sub-files, write-write: ~15 min, left out of the 30-minute tier
+                J.append(xjob(kind, unit, 3, ops, T))
     for al in (2, 4):
         for am in (0, 1):
             for ops in ((1, 0), (1, 1), (0, 1)):
                 J.append(ajob('al_%s_a%d_m%d' % ('_'.join(OPN[o] for o in ops), al, am), al, am, 8, 8, ops, T))
     for op in (2, 3):
         J.append(vjob(4, 1, 4, 4, op, T))
-        J.append(vjob(2, 1, 6, 6, op, T, mem_gb=24))
+        J.append(vjob(2, 0, 6, 6, op, T))
     return J
